@@ -7,7 +7,7 @@ from .. import scenario
 ID = "C20"
 LEVEL = "exploration"
 RULE = ("cases are directory trees (entries: regular file / directory with children / symlink to a file inside, "
-        "to a file outside DIR, or dangling) over the property's name set (incl. names that are not valid UTF-8), with DIR itself named plainly or like a source file / a bytecode file / hidden / with a space / non-ASCII and spelled relative, ./relative, "
+        "to a file outside DIR, or dangling) over the property's name set (incl. names that are not valid UTF-8 and groups of siblings that differ only in letter case), with DIR itself named plainly or like a source file / a bytecode file / hidden / with a space / non-ASCII and spelled relative, ./relative, "
         "trailing slash, absolute or omitted; enumerated part = every 1- and 2-entry DIR over (name x kind); random part "
         "= Hypothesis trees with up to 8 entries and sub-directories. Non-trivial = DIR holds at least one regular "
         "*.mmm file AND (a near-miss name or a directory/symlink named *.mmm or a sub-directory holding *.mmm); "
@@ -19,7 +19,9 @@ NAMES = ["x.mmm", "y.mmm", "x.ms", "x.mmm.bak", "x.transpiled.mmm", ".mmm", "mmm
          "a b.mmm", "a.b.c.mmm", "é.mmm", "x.mmmm", "xmmm", "x.mm",
          # names that are NOT valid UTF-8 (a Latin-1 e-acute, a lone 0xFF), spelled with Python's surrogate escapes:
          # os.fsencode() turns "\udce9" into the single byte 0xE9
-         "caf\udce9.mmm", "\udcff.mmm", "x.mmm\udce9", "caf\udce9.ms"]
+         "caf\udce9.mmm", "\udcff.mmm", "x.mmm\udce9", "caf\udce9.ms",
+         # siblings that differ only in letter case / form one prefix of the other (entries must be handled one by one)
+         "X.mmm", "Vector.mmm", "vector.mmm", "VECTOR.mmm", "x.mmm.mmm", "x"]
 KINDS = ["file", "dir", "ln_in", "ln_out", "ln_dangling"]
 SPELL = ["rel", "dotrel", "slash", "abs", "omitted"]
 
@@ -191,6 +193,10 @@ def enumerated(tier, seed):
             cases.append({"entries": [a, b], "spell": "rel"})
     if tier == "quick":
         cases = cases[:len(singles)] + cases[len(singles)::3]
+    # groups of siblings whose names collide under case folding / prefixing
+    for group in (["x.mmm", "X.mmm"], ["Vector.mmm", "vector.mmm", "VECTOR.mmm"], ["x.mmm", "x.mmm.mmm", "x"], ["\u00e9.mmm", "x.mmm", "X.mmm", "x.MMM"]):
+        for kinds in (["file"] * len(group), ["file"] + ["ln_in"] * (len(group) - 1), ["dir"] + ["file"] * (len(group) - 1)):
+            cases.append({"entries": [(n, k, [("x.mmm", "file")] if k == "dir" else []) for n, k in zip(group, kinds)], "spell": "rel"})
     # the NAME of DIR itself (named like a source file, like a bytecode file, hidden, with a space, non-ASCII) x every spelling
     probe = [("x.mmm", "file", []), ("x.ms", "file", []), ("sub", "dir", [("x.mmm", "file")])]
     for dn in DIRNAMES:
